@@ -1089,7 +1089,7 @@ struct Value {
         }
 
         if (type == ValueType::ValuePtr) {
-            return value_->isUndefined();
+            return value_->IsUndefined();
         }
 
         return false;
@@ -1103,7 +1103,7 @@ struct Value {
         }
 
         if (type == ValueType::ValuePtr) {
-            return value_->isObject();
+            return value_->IsObject();
         }
 
         return false;
@@ -1117,7 +1117,7 @@ struct Value {
         }
 
         if (type == ValueType::ValuePtr) {
-            return value_->isArray();
+            return value_->IsArray();
         }
 
         return false;
@@ -1131,7 +1131,7 @@ struct Value {
         }
 
         if (type == ValueType::ValuePtr) {
-            return value_->isString();
+            return value_->IsString();
         }
 
         return false;
@@ -1145,7 +1145,7 @@ struct Value {
         }
 
         if (type == ValueType::ValuePtr) {
-            return value_->isUInt64();
+            return value_->IsUInt64();
         }
 
         return false;
@@ -1159,7 +1159,7 @@ struct Value {
         }
 
         if (type == ValueType::ValuePtr) {
-            return value_->isInt64();
+            return value_->IsInt64();
         }
 
         return false;
@@ -1173,7 +1173,7 @@ struct Value {
         }
 
         if (type == ValueType::ValuePtr) {
-            return value_->isDouble();
+            return value_->IsDouble();
         }
 
         return false;
@@ -1187,7 +1187,7 @@ struct Value {
         }
 
         if (type == ValueType::ValuePtr) {
-            return value_->isTrue();
+            return value_->IsTrue();
         }
 
         return false;
@@ -1201,7 +1201,7 @@ struct Value {
         }
 
         if (type == ValueType::ValuePtr) {
-            return value_->isFalse();
+            return value_->IsFalse();
         }
 
         return false;
@@ -1215,7 +1215,7 @@ struct Value {
         }
 
         if (type == ValueType::ValuePtr) {
-            return value_->isNull();
+            return value_->IsNull();
         }
 
         return false;
